@@ -109,3 +109,10 @@ package console
 // C17: the session log receives device output only: logString is reached from
 // the two functions that read from the device, never from Send.
 //vc:only[C17] (*Conn).logString in (*Conn).expectLog, (*Conn).TryPrompt
+
+// C17: the functions of this package that are handed the text to send (which
+// is the password during login) never format a diagnostic themselves: aborts
+// come from the functions that wait for the device (they know the prompt
+// pattern and the device's answer, not the command) and from StripEcho, which
+// is only used for change commands.
+//vc:only[C17] github.com/hknutzen/Netspoc-Approve/go/pkg/errlog::Abort within this package in (*Conn).WaitLogin, (*Conn).WaitShort, (*Conn).waitPrompt, (*Conn).StripStdPrompt, (*Conn).StripEcho
